@@ -152,7 +152,33 @@ class Ops:
             fa.json_writer(s, schema, recs)
             return s.getvalue()
 
+        def wclass(recs, codec, marker):
+            # the Writer class used directly, with flushes in the middle of the stream
+            from fastavro.write import Writer
+            b = io.BytesIO()
+            w = Writer(b, self.REC, codec=codec, sync_marker=marker, sync_interval=10**6)
+            for i, r in enumerate(recs):
+                w.write(r)
+                if i % 2 == 0:
+                    w.flush()
+            w.flush()
+            w.flush()
+            return b.getvalue()
+
+        def bcopy():
+            from fastavro.write import Writer
+            b = io.BytesIO()
+            w = Writer(b, self.REC, codec="null", sync_marker=b"\x06" * 16)
+            for blk in fa.block_reader(io.BytesIO(self.file_rec)):
+                w.write_block(blk)
+            w.flush()
+            return b.getvalue()
+
         return {
+            "wclass_a": lambda: wclass([REC1, REC2, REC1, REC2], "null", b"\x04" * 16),
+            "wclass_b": lambda: wclass([REC2, REC2, REC1], "deflate", b"\x05" * 16),
+            "block_copy": bcopy,
+            "block_read": lambda: [(blk.num_records, blk.codec, list(blk)) for blk in fa.block_reader(io.BytesIO(self.file_rec))],
             "sread_dec30": lambda: fa.schemaless_reader(io.BytesIO(self.b_d30), self.D30),
             "sread_dec2": lambda: fa.schemaless_reader(io.BytesIO(self.b_d2), self.D2),
             "sread_dec9": lambda: fa.schemaless_reader(io.BytesIO(self.b_d9), self.D9),
@@ -278,7 +304,8 @@ def run_shard(spec):
                    ("jwrite_rec", "jwrite_rec_b"), ("cread_rec", "cread_rec_named"), ("cread_rec_named", "cread_rec"),
                    ("sread_rec", "sread_rec_named"), ("jwrite_rec_b", "jwrite_rec"), ("cwrite_rec", "cwrite_rec_deflate"),
                    ("jread_rec", "jwrite_rec_b"), ("parse_raw", "parse_raw2"), ("swrite_rec", "swrite_rec2"),
-                   ("cread_rec_resolve", "cread_rec"), ("swrite_log", "sread_log"), ("validate_rec", "validate_bad")]
+                   ("cread_rec_resolve", "cread_rec"), ("swrite_log", "sread_log"), ("validate_rec", "validate_bad"),
+                   ("wclass_a", "wclass_b"), ("wclass_b", "wclass_a"), ("block_copy", "wclass_a"), ("block_read", "block_copy")]
     all_pairs = [(a, b) for a in names for b in names]
     rng.shuffle(all_pairs)
     mine = [p for i, p in enumerate(fixed_pairs) if i % SHARDS == spec["shard"]] + all_pairs[: PAIRS[tier]]
